@@ -481,7 +481,8 @@ func (i *interpreter) runPath(job *Job, prefix []Decision) (p *pathState) {
 				case reason == "steps":
 					p.status = "incomplete: step budget exceeded"
 					if i.job != nil {
-						i.addFinding("steps", "steps", fmt.Sprintf("path exceeded the step budget of %d SSA instructions", p.maxSteps), nil)
+						i.sched.aborting = false
+						i.findingHere("steps", "steps", fmt.Sprintf("path exceeded the step budget of %d SSA instructions", p.maxSteps))
 					}
 				case reason == "deadlock":
 					p.status = "deadlock"
